@@ -107,6 +107,55 @@ def check_render(rep, d, tmp):
     plt.close('all')
 
 
+def check_ports(rep, d):
+    """graph-level sanity for diagrams with special boxes (spiders, wires drawn as boxes, bubbles): every node has
+    coordinates, every wire ends somewhere (no port without its incoming / outgoing edge), every edge points downwards"""
+    r = repr(d)
+    rep.case(('special', r))
+    got = common.outcome(lambda: diagram2nx(d))
+    if got[0] != 'ok':
+        rep.fail('C20:special.graph', 'diagram2nx raised %r' % (got[1],), r)
+        return
+    graph, pos = got[1]
+    for k in graph.nodes:
+        if k not in pos:
+            rep.fail('C20:special.positions', 'node %r has no coordinates' % (k,), r)
+            return
+    for k in graph.nodes:
+        ins, outs = graph.in_degree(k), graph.out_degree(k)
+        if k.kind in ('dom', 'output') and ins != 1:
+            rep.fail('C20:special.dangling', 'port %r has %d incoming wires' % (k, ins), r)
+            return
+        if k.kind in ('cod', 'input') and outs != 1:
+            rep.fail('C20:special.dangling', 'wire from %r ends nowhere (%d outgoing edges)' % (k, outs), r)
+            return
+    for a, b in graph.edges:
+        if not pos[a][1] > pos[b][1] - EPS:
+            rep.fail('C20:special.downwards', 'edge %r -> %r points upwards' % (a, b), r)
+            return
+
+
+def specials():
+    """diagrams with the boxes that have their own drawing code: spiders of several shapes and colours, swaps / cups /
+    caps drawn as wires, bubbles with default and explicit types"""
+    from discopy import rigid
+    from discopy.quantum import zx
+    x, y = Ty('x'), Ty('y')
+    f, g = Box('f', x, y @ y), Box('g', y, x)
+    copy = Box('copy', x, x @ x, draw_as_spider=True, color='black')
+    merge = Box('merge', x @ x, x, draw_as_spider=True, color='red', shape='plus')
+    rect = Box('G', x, x, draw_as_spider=True, shape='rectangle', color='yellow')
+    out = [copy >> rect @ Id(x) >> merge, copy @ rect >> Id(x) @ merge, rect >> copy >> rect @ merge.dagger() >> merge @ Id(x)]
+    out += [zx.Z(1, 2, 0.25) >> zx.H @ zx.X(1, 1, 0.5), zx.X(0, 2) >> zx.SWAP >> zx.H @ zx.Z(1, 0), zx.H >> zx.H]
+    n = rigid.Ty('n')
+    out += [rigid.Cap(n, n.l) @ rigid.Id(n) >> rigid.Id(n) @ rigid.Cup(n.l, n),
+            rigid.Id(n) @ rigid.Cap(n.r, n) >> rigid.Swap(n, n.r) @ rigid.Id(n) @ rigid.Box('h', rigid.Ty(), n),
+            rigid.Cap(n.r, n) >> rigid.Swap(n.r, n) >> rigid.Cup(n, n.r)]
+    out += [f.bubble(), (f >> g @ g).bubble(), f.bubble() >> g @ g, Id(x) @ g.bubble() @ Id(y),
+            f.bubble(dom=x @ x, cod=y), g.bubble(dom=y, cod=x @ x), Box('s', Ty(), x).bubble(), Box('e', x, Ty()).bubble()]
+    return out
+
+
 def check_diagramize(rep):
     x, y = Ty('x'), Ty('y')
     f, g, h = Box('f', x, y), Box('g', y, x), Box('h', x @ y, x)
@@ -153,6 +202,8 @@ def run(tier, seed=0, shard=(0, 1)):
     doms = [Ty(), x, x @ x, x @ x @ x]
     rep = Report({'max_boxes': max_boxes, 'max_width': 5, 'boxes': [repr(b) for b in boxes], 'doms': [repr(t) for t in doms],
                   'render': 'every %dth diagram on both back-ends (Agg, TikZ to a scratch file)' % (120 if tier == 'quick' else 25),
+                  'special_boxes': 'spiders of three shapes / colours, ZX diagrams, cups / caps / swaps drawn as wires, bubbles with '
+                                   'default and explicit types: coordinates for every node, no dangling port, edges downwards, rendered',
                   'mixed_types': 'boxes of every arity 0..3 -> 0..3 over three wire types, alone / between wires / followed by their dagger, laid out and rendered'})
     tmp = tempfile.mkdtemp(prefix='c20_')
     try:
@@ -171,6 +222,10 @@ def run(tier, seed=0, shard=(0, 1)):
                      Id(x) @ f @ Id(x) >> s4 @ Id(x ** 3) >> Id(x ** 7) @ s4, f @ f >> Id(x) @ s4 @ Id(x) >> f @ Id(x ** 5)]
             for d in extra:
                 check_layout(rep, d)
+                check_render(rep, d, tmp)
+        if shard[0] == 2 % shard[1]:
+            for d in specials():
+                check_ports(rep, d)
                 check_render(rep, d, tmp)
         # boxes of every arity 0..3 -> 0..3 whose wires all have different types (scalars, states, effects included),
         # alone and between two wires: laid out and rendered on both back-ends
